@@ -158,11 +158,15 @@ func MakeSlice(oldPtr unsafe.Pointer, et *GoType, newLen int) *GoSlice {
 		return old
 	}
 
-	new := GrowSlice(et, *old, newLen)
+	// the elements within the old capacity are decoded in place like those within the
+	// old length (as encoding/json and the JIT decoder do): they move with the slice
+	full := *old
+	full.Len = full.Cap
+	new := GrowSlice(et, full, newLen)
 
-	// we should clear the memory from [oldLen:newLen]
+	// we should clear the memory from [oldCap:newLen]
 	if et.PtrData == 0 {
-		oldlenmem := uintptr(old.Len) * et.Size
+		oldlenmem := uintptr(full.Len) * et.Size
 		newlenmem := uintptr(newLen) * et.Size
 		MemclrNoHeapPointers(add(new.Ptr, oldlenmem), newlenmem-oldlenmem)
 	}
